@@ -136,6 +136,34 @@ def run(chk):
             if nviol <= 5:
                 chk.violation({"kind": "law", "law": law, "expr": expr, "doc": d, "impl": got.decode("utf-8", "replace"),
                                "expect": want.decode("utf-8", "replace")}, True, "update law %s fails for %s" % (law, expr))
+    # ---- reading the new value must not change what it reads (frame for the RHS): end-of-sequence and missing-key reads
+    rd = []
+    fixed_docs = [{"a": 1, "b": [1, 2]}, {"b": []}, {"a": {"x": 1}, "b": [[1], [2, 3]]}, {"a": None, "b": {"c": [5]}}, [[1], [2]]]
+    for d in fixed_docs + [evalgen.gen_doc(chk.rng) for _ in range(300 if thorough else 60)]:
+        seqs = [p_ for p_ in evalgen.doc_paths(d) if isinstance(evalgen._get(d, p_), list)]
+        maps = [p_ for p_ in evalgen.doc_paths(d) if isinstance(evalgen._get(d, p_), dict)]
+        for sp in seqs[:3]:
+            ln = len(evalgen._get(d, sp))
+            for idx in (ln, ln + 1):
+                for tgt in ([("z",)] if isinstance(d, dict) else ([(len(d),)] if isinstance(d, list) else [])):
+                    rd.append((d, ("assign", path_expr(tgt), path_expr(sp + (idx,))), sp))
+                    rd.append((d, ("compound", "add", path_expr(tgt), path_expr(sp + (idx,))), sp))
+        for mp in maps[:2]:
+            if isinstance(d, dict):
+                rd.append((d, ("assign", ("getkey", "z"), path_expr(mp + ("nokey",))), mp))
+    rout = evalcheck.impl_eval([(("pipe", e, path_expr(keep) if keep else ("self",)), d) for d, e, keep in rd])
+    rcases = [(e, d) for d, e, keep in rd]
+    rimpl, rmm, runs, rerr = evalcheck.correspondence(chk, rcases, "c02_reads")
+    for (d, e, keep), b in zip(rd, rout):
+        want = b"OK\n" + evalcheck.ser(evalgen._get(d, keep)) + b"\n"
+        chk.count(("read", evalgen.render(e), json.dumps(d)), nontrivial=True)
+        if b.startswith(b"OK") and b != want and keep != () and len(chk.violations) < 6:
+            chk.violation({"kind": "eval", "expr": evalgen.render(("pipe", e, path_expr(keep))), "doc": d, "impl": b.decode("utf-8", "replace"),
+                           "expect": want.decode("utf-8", "replace")}, True, "reading the value to assign changed the container it was read from: " + evalgen.render(e))
+    if rerr:
+        broken.append("model evaluation failed (reads): " + rerr[-300:])
+    elif rmm and not chk.violations:
+        evalcheck.report_disagreements(chk, rcases, rimpl, rmm, "C02 correspondence (reads)")
     # ---- the lens spec itself against the implementation (simple paths incl. indices and creation)
     spec_cases, spec_impl_req = [], []
     for d, p, v1, v2 in laws:
